@@ -309,6 +309,10 @@ class Interp:
     def _assign(self, c):
         from . import assign as table
         _, name, quals, track, rhs = c
+        if rhs[0] == "f" and rhs[1] == "count" and not rhs[3] and "onmatch" not in quals:
+            # the docs only show '@t.onmatch = count()'; what a plain '@t = count()' does on a
+            # line that does not match is not documented
+            raise Undefined("plain assignment of count()")
         y = self.val(rhs)
         if isinstance(y, str):
             y = y.strip()
@@ -412,6 +416,8 @@ class Interp:
         _, name, quals, track, rhs = c
         if quals:
             raise Undefined("qualified assignment on the right of ->")
+        if rhs[0] == "f" and rhs[1] == "count" and not rhs[3]:
+            raise Undefined("plain assignment of count()")
         y = self.val(rhs)
         if isinstance(y, str):
             y = y.strip()
@@ -726,6 +732,15 @@ class Interp:
 
     def _fval(self, n):
         _, name, quals, args = n
+        if name == "regex":
+            # docs/functions/regex.md: "If there is any match it is returned"
+            ri = 0 if args[0][0] == "rx" else 1
+            m = re.search(self.val(args[ri]), self._str(args[1 - ri]))
+            if m is None:
+                return None
+            if m.group(0).strip() == "":
+                raise Undefined("regex matching the empty string")
+            return m.group(0).strip()
         if name in DECIDERS:
             return self.vote(n)
         if name == "concat":
